@@ -125,8 +125,8 @@ func run(c *mon.Case) {
 
 func main() {
 	mon.Main(mon.Spec{
-		Prop: "C13",
-		Rule: "case = random expression tree with 0..8 conditionals nested in conditions, branches, operands and load addresses (alternatives bounded by 4096); non-trivial = tree with >=2 conditionals, distinct by S-expression",
+		Prop:        "C13",
+		Rule:        "case = random expression tree with 0..8 conditionals nested in conditions, branches, operands and load addresses (alternatives bounded by 4096); non-trivial = tree with >=2 conditionals, distinct by S-expression",
 		Explanation: "oracle: every alternative has the expression's width and no Less node; under each of 8 valuations some alternative evaluates (refir) to the value of the expression",
 		Assumptions: []string{"refir reference evaluator"},
 		Cases: func(t string) int {
